@@ -77,7 +77,7 @@ def gen_wl(rng, force=None):
 def _wl_dict(rng, fasta, w):
     return {
         "kind": "fasta" if fasta else "tpf",
-        "fmt": rng.choice(["fa", "agp", "agp", "tpf"]) if fasta else rng.choice(["tpf", "agp", "agp"]),
+        "fmt": rng.choice(["fa", "fa", "agp", "agp", "tpf"]) if fasta else rng.choice(["tpf", "agp", "agp"]),
         "input": w["fasta"] if fasta else w["tpf"],
         "pretext": w["pretext_agp"],
         "prefix": rng.choice(["SUPER_", "SUPER_", "chr"]),
@@ -90,6 +90,9 @@ def gen_case(rng, tier):
     if case["w1"].get("log_level") == "DEBUG" and "hash" not in case["dims"]:
         # the DEBUG log prints tables built from tag sets: always look at it under other hash seeds
         case["dims"] = sorted(case["dims"] + ["hash"])
+    if case["w1"].get("fmt") == "fa" and "buffer" not in case["dims"]:
+        # FASTA output is where the stream buffer size matters: always vary it there
+        case["dims"] = sorted(case["dims"] + ["buffer"])
     return case
 
 
